@@ -159,6 +159,14 @@ func pair4[V any](a, b *inputs, f0 func(string, string) (V, error), f1 func([]by
 }
 
 var pairEntries = []pairEntry{
+	{"sem.DefaultComparePreRelease", func(a, b *inputs) [4]pres {
+		// no error result: the comparison itself is the value that must agree
+		return pair4(a, b,
+			func(x, y string) (int, error) { return sem.DefaultComparePreRelease(x, y), nil },
+			func(x, y []byte) (int, error) { return sem.DefaultComparePreRelease(x, y), nil },
+			func(x NS, y NB) (int, error) { return sem.DefaultComparePreRelease(x, y), nil },
+			func(x NB, y string) (int, error) { return sem.DefaultComparePreRelease(x, y), nil })
+	}},
 	{"sem.Compare", func(a, b *inputs) [4]pres {
 		return pair4(a, b,
 			func(x, y string) (int, error) { return sem.Compare(x, y) },
